@@ -5,7 +5,7 @@
       (two repetitions x GOMAXPROCS 1, 4, 16); the per-run hashes (event log + tape
       consumed + scenario + verdict) must be identical. Exit 2 on divergence.
 
-  ./check selftest sensitivity [--only <id>]
+  ./check selftest sensitivity [--only <id>[,<id>...] | --only check=C18,C10]
       every entry of mutants/catalog.json (hand-made mutants and the confirmed seeded
       changes of sub-agents) is applied to a scratch worktree of /repo OUTSIDE /repo and
       /verif, the quick check of the listed property is run against it and must report a
@@ -72,7 +72,13 @@ def determinism(args, drv):
 def sensitivity(args, drv):
     cat = json.load(open(os.path.join(VERIF, "mutants", "catalog.json")))
     if args.only:
-        cat = [c for c in cat if c["id"] == args.only]
+        # one id, several ids separated by commas, or "check=C18,C10" (all entries run against those checks)
+        if args.only.startswith("check="):
+            checks = set(args.only[len("check="):].split(","))
+            cat = [c for c in cat if c["check"] in checks]
+        else:
+            ids = set(args.only.split(","))
+            cat = [c for c in cat if c["id"] in ids]
     missed, results = [], []
 
     def one(c):
